@@ -244,8 +244,6 @@ class ClassicOptimize(OutputOptimize):
         dict(prog=['A', [['A', 'A'], [['A', ['A', [['A', [['A', ['A', 'N']], 'N']], 'N']]], 'N']]], fix=[2, 1, None, 4, None, 1, None, None]),
         # (a (q . P) (c (q . ((OP))) X))        atoms: a q P c q OP X
         dict(prog=['A', [['A', 'A'], [['A', [['A', [['A', 'N'], 'N']], ['A', 'N']]], 'N']]], fix=[2, 1, None, 4, 1, None, None]),
-        # (a (q . (OP P1 P2)) (c X Y))          atoms: a q OP P1 P2 c X Y
-        dict(prog=['A', [['A', ['A', ['A', ['A', 'N']]]], [['A', ['A', ['A', 'N']]], 'N']]], fix=[2, 1, None, None, None, 4, None, None]),
     ]
 
     def cases(self, tier):
@@ -265,9 +263,18 @@ class ClassicOptimize(OutputOptimize):
 
     @staticmethod
     def has_pair_head(lsh):
+        """a pair in operator position of the program or of any operand, recursively (quoted data is not told apart, so this
+        over-approximates the forms that are evaluated; a pair that is merely an element of an operand list does not count)"""
         if not isinstance(lsh, list):
             return False
-        return isinstance(lsh[0], list) or ClassicOptimize.has_pair_head(lsh[0]) or ClassicOptimize.has_pair_head(lsh[1])
+        if isinstance(lsh[0], list):
+            return True
+        t = lsh[1]
+        while isinstance(t, list):
+            if ClassicOptimize.has_pair_head(t[0]):
+                return True
+            t = t[1]
+        return False
 
     classes = {
         # ((X) . operands): a pair in operator position
